@@ -33,3 +33,25 @@ package ply
 //@   requires scanner_token_limit: len(line) < 2147483647
 //@   returns offset, err
 //@   ensures consumed_tokens_exist: err == nil ==> 1 <= offset && offset <= len(line)
+
+// binary list property (face indices / texture coordinates): the count and the payload are taken from the
+// stream with io.ReadFull; err == nil means every byte of both existed.  consumed(in) is the ghost number of
+// bytes taken from the reader.
+
+//@ func ScalarPropertyType.Size pure
+//@   props C14
+
+//@ func listBinaryPropertyReader.Count
+//@   props C14
+//@   modifies lpr.buf, ghost consumed
+//@   requires len(lpr.buf) >= lpr.property.CountType.Size()
+//@   returns n, err
+//@   ensures count_bytes_existed: err == nil ==> consumed(in) - old(consumed(in)) == lpr.property.CountType.Size()
+
+//@ func listBinaryPropertyReader.Read
+//@   props C14
+//@   modifies lpr, lpr.buf, ghost consumed
+//@   requires lpr != nil && len(lpr.buf) >= lpr.property.CountType.Size()
+//@   unclaimed safe.slicebounds: a list count of 2^31 or more makes the payload size negative; no prefix of a valid file holds one
+//@   returns err
+//@   ensures payload_bytes_existed: err == nil ==> lpr.lastReadListSize >= 0 && consumed(in) - old(consumed(in)) == old(lpr.property.CountType.Size()) + lpr.lastReadListSize * lpr.property.ListType.Size()
